@@ -7,6 +7,7 @@ import (
 	"os"
 	"runtime/pprof"
 	"sort"
+	"time"
 
 	"verif/checks"
 	"verif/internal/core"
@@ -20,6 +21,10 @@ func usage() {
 func main() {
 	os.Unsetenv("DEBUG_I2P")
 	os.Unsetenv("WARNFAIL_I2P")
+	// Environment: the process's local time zone is deliberately NOT UTC (UTC-09:30: west of Greenwich, not a whole
+	// number of hours), so that code reaching for time.Local / Time.Local() / a zone-less format where the
+	// specification says UTC computes a different calendar day or second count than the oracles, which use UTC.
+	time.Local = time.FixedZone("verif-local(-09:30)", -(9*3600 + 30*60))
 	if len(os.Args) < 2 {
 		usage()
 	}
